@@ -13,7 +13,7 @@ STUBS = ["Monitor.__call__ has an empty body"]
 ASSUMPTIONS = ["every path pins the whole mask (checked per path by the solver query pc AND mask != model-mask = unsat); the comparison with the "
                "oracle is then concrete", "monotonicity (smaller mask never yields a larger graph) follows from equality with the oracle, which is "
                "monotone by construction; it is not re-checked by self-composition"]
-BUDGET_S = {"quick": 1200, "thorough": 1500}
+BUDGET_S = {"quick": 1200, "thorough": 2400}
 SLICE_PATHS = 200
 
 
